@@ -58,7 +58,7 @@ if __name__ == "__main__":
         results = list(ex.map(lambda s: run(s, tier), seeds))
     caught = 0
     for r in results:
-        prop = r["seed"].split("-")[0]
+        prop = [x for x in r["seed"].split("-") if x.startswith("C")][0]
         own = prop in r["fires"]
         anyf = bool(r["fires"])
         caught += anyf
@@ -68,3 +68,5 @@ if __name__ == "__main__":
     print("%d/%d caught" % (caught, len(results)))
     if len(sys.argv) <= 2:
         json.dump({"tier": tier, "results": results}, open(os.path.join(VERIF, "seeded", "MATRIX.json"), "w"), indent=1)
+    elif os.environ.get("MATRIX_OUT"):
+        json.dump({"tier": tier, "results": results}, open(os.environ["MATRIX_OUT"], "w"), indent=1)
